@@ -62,6 +62,12 @@ func (*RecvB) Account(ctx context.Context, w string) (*ReqT, error) {
 }
 func (*RecvB) OptObj(r *ReqT) int { atomic.AddInt64(&invocations, 1); return 1 }
 func (*RecvB) Restatus() int       { atomic.AddInt64(&invocations, 1); return 2 }
+
+// trailing parameters whose zero value is nil but which are not optional: a missing one is a malformed call
+func (*RecvB) Tag(name string, labels []string) int                     { atomic.AddInt64(&invocations, 1); return len(labels) }
+func (*RecvB) Annotate(name string, notes map[string]interface{}) int   { atomic.AddInt64(&invocations, 1); return len(notes) }
+func (*RecvB) Attach(name string, blob interface{}) int                 { atomic.AddInt64(&invocations, 1); return 1 }
+func (*RecvB) Drop(labels []string) int                                 { atomic.AddInt64(&invocations, 1); return len(labels) }
 func (*RecvB) StatusAll() int      { atomic.AddInt64(&invocations, 1); return 3 }
 
 var srvReceivers = map[string]interface{}{"A": RecvA{}, "pA": &RecvA{}, "B": &RecvB{}}
@@ -78,6 +84,12 @@ func goTypeTok(t reflect.Type) string {
 		return "obj"
 	case reflect.Ptr:
 		return "p" + goTypeTok(t.Elem())
+	case reflect.Slice:
+		return "slice"
+	case reflect.Map:
+		return "anymap"
+	case reflect.Interface:
+		return "any"
 	}
 	return "obj" // anything else (interfaces, maps, slices) only ever appears on methods that are not exposed
 }
@@ -202,11 +214,11 @@ func (c *srvComp) Gen(r *rand.Rand, idx int, emit func(string)) {
 	}
 	allow := allowSets[recv][r.Intn(len(allowSets[recv]))]
 	emit(fmt.Sprintf("reg %s recv=%s allow=%s", Tok(pre), recv, JoinC(allow)))
-	names := []string{"ping", "echo", "add", "flag", "signed", "opt", "boom", "closeThing", "hidden", "status", "account", "optObj", "reecho", "pingAll", "restatus", "statusAll"}
+	names := []string{"ping", "echo", "add", "flag", "signed", "opt", "boom", "closeThing", "hidden", "status", "account", "optObj", "reecho", "pingAll", "restatus", "statusAll", "tag", "annotate", "attach", "drop"}
 	own := map[string][]string{
 		"A":  {"ping", "echo", "add", "flag", "signed", "opt", "boom", "closeThing", "reecho", "pingAll"},
 		"pA": {"ping", "echo", "add", "flag", "signed", "opt", "boom", "closeThing", "reecho", "pingAll"},
-		"B":  {"status", "account", "optObj", "restatus", "statusAll"},
+		"B":  {"status", "account", "optObj", "restatus", "statusAll", "tag", "annotate", "attach", "drop"},
 	}[recv]
 	// parameter lists around each method's declared signature (exact, one short, one long, one wrongly typed, nulls)
 	near := map[string][]string{
@@ -226,6 +238,10 @@ func (c *srvComp) Gen(r *rand.Rand, idx int, emit func(string)) {
 		"pingAll":    {"absent", "[]", "s"},
 		"restatus":   {"absent", "[]", "s"},
 		"statusAll":  {"absent", "[]", "i"},
+		"tag":        {"s.a", "s", "s.n", "[]", "absent", "s.a.s", "s.s", "s.o"},
+		"annotate":   {"s.o", "s", "s.ob", "s.n", "absent", "s.a", "s.o.o"},
+		"attach":     {"s.o", "s.s", "s.i", "s.a", "s.n", "s", "[]", "absent", "s.b.b"},
+		"drop":       {"a", "[]", "absent", "null", "n", "s", "a.a"},
 	}
 	paramToks := []string{"absent", "null", "nonarray", "[]", "s", "i", "b", "n", "f", "a", "o", "ob", "s.s", "i.i", "s.i", "s.s.i.o"}
 	for i := 0; i < 15+r.Intn(25); i++ {
